@@ -233,7 +233,7 @@ func allPathsTo(fn *ssa.Function, to *ssa.BasicBlock, hit func(ssa.Instruction) 
 		if b == to {
 			return false
 		}
-		stack = append(stack, b.Succs...)
+		stack = append(stack, liveSuccs(b)...)
 	}
 	return true
 }
